@@ -33,7 +33,9 @@ func lookupNode[T any](urlTree *URLTree[T], url string) lookupNodeResult[T] {
 	foundWildcardPath := ""
 	urlPath := ""
 	for _, urlPart := range splitURL {
-		if currentNode.WildcardChild != nil {
+		// below the root, a path wildcard must not swallow further host labels
+		if currentNode.WildcardChild != nil && (currentNode == urlTree.Root ||
+			currentNode.WildcardChild.IsPartOfHost == urlPart.IsPartOfHost) {
 			foundWildcardNode = currentNode.WildcardChild
 			foundWildcardPath = wildcardPath(urlPath, currentNode.WildcardChild)
 		}
